@@ -403,9 +403,9 @@ def gen_mp(ctx):
     rule = {1: '192.88.3.0/24', 2: '192.89.3.0/24', 3: '=6|=17', 5: '=80|=443|>=8080', 6: '>1024', 10: '<=1500', 11: '=46'}
     out.append(mp('flow4', reach={'afi_safi': [1, 133], 'nexthop': '', 'nlri': [rule, rule]},
                   extra={16: [[0x8006, '0:0'], [0x8008, '65001:7'], [0x8009, 10], [0x0800, '10.1.1.1', 0]]}))
-    for k in (70, 72, 73, 74, 75, 80, 84, 85, 86, 120):     # NLRI length around 240 and 255
+    for k in (70, 76, 77, 78, 79, 80, 82, 83, 84, 120):     # NLRI length 6 + 3k: around 240 and 255
         big = {1: '192.88.3.0/24', 5: '|'.join('=%d' % (1000 + i) for i in range(k))}
-        n = 5 + 3 * k
+        n = 6 + 3 * k
         out.append(mp('flow.ge240' if n >= 240 else 'flow4',
                       reach={'afi_safi': [1, 133], 'nexthop': '', 'nlri': [big]}))
         out.append(mp('flow.ge240' if n >= 240 else 'flow4', unreach={'afi_safi': [1, 133], 'withdraw': [big]}))
@@ -427,9 +427,9 @@ def gen_mp(ctx):
                                           'nlri': [{1: {'prefix': '2001:db8::/32', 'offset': 0}, t: o}]}))
     out.append(mp('flow6.and', reach={'afi_safi': [2, 133], 'nexthop': '',
                                       'nlri': [{1: {'prefix': '2001:db8::/32', 'offset': 0}, 5: '>=80&<=90'}]}))
-    for k in (70, 76, 77, 78, 90):
+    for k in (70, 76, 77, 78, 79, 90):                      # 8 + 3k
         big = {1: {'prefix': '2001:db8::/32', 'offset': 0}, 5: '|'.join('=%d' % (1000 + i) for i in range(k))}
-        out.append(mp('flow.ge240' if 7 + 3 * k >= 240 else 'flow6',
+        out.append(mp('flow.ge240' if 8 + 3 * k >= 240 else 'flow6',
                       reach={'afi_safi': [2, 133], 'nexthop': '', 'nlri': [big]}))
     # ---- SR-TE policy NLRI + tunnel encapsulation attribute
     sid = {'label': 3000, 'TC': 0, 'S': 0, 'TTL': 255}
